@@ -45,6 +45,9 @@ type HExp struct {
 	Last   int  `json:"last"`
 	LastT  int  `json:"lastt"`
 	Commit int  `json:"commit"`
+	// RequestVote cases: durable term / vote after the call
+	DTerm int    `json:"dterm"`
+	DVote string `json:"dvote"`
 }
 
 // WireReq carries the fields of any of the three requests / responses (unused ones zero).
@@ -372,6 +375,20 @@ func (r *Runner) do(s Stim) bool {
 				r.drift++
 				c.rec.Emit("drift", Ev{"k": r.done, "a": "HandleAE", "n": n.id, "p": s.From, "applied": true,
 					"diffs": []string{fmt.Sprintf("spec=%+v code=reply{ok:%v hint:%d term:%d} last=%d lastt=%d commit=%d", *x, rp.AEr.Success, rp.AEr.Index, rp.AEr.Term, got.Last, got.LastT, got.Commit)}})
+			} else {
+				r.matched++
+			}
+			r.hcases++
+		}
+		if s.Exp != nil && rp != nil && s.Kind == "rv" {
+			x := s.Exp
+			c.mu.Lock()
+			pt, pv := n.pterm, n.pvote
+			c.mu.Unlock()
+			if rp.RVr.VoteGranted != x.Ok || int(rp.RVr.Term) != x.RTerm || pt != x.DTerm || pv != x.DVote {
+				r.drift++
+				c.rec.Emit("drift", Ev{"k": r.done, "a": "HandleRV", "n": n.id, "p": s.From, "applied": true,
+					"diffs": []string{fmt.Sprintf("spec={ok:%v rterm:%d dterm:%d dvote:%q} code={ok:%v rterm:%d dterm:%d dvote:%q}", x.Ok, x.RTerm, x.DTerm, x.DVote, rp.RVr.VoteGranted, rp.RVr.Term, pt, pv)}})
 			} else {
 				r.matched++
 			}
